@@ -6,7 +6,12 @@
     transfers described below; the volumes it requests from the stock add up to v_stock, those
     requested from the diluent to at most v_diluent; requests that cannot be met raise ValueError
     instead of returning a partial plan.
-    Statements only; proofs live in Proofs/DilutionProofs.v.
+    Statements only; proofs live in Proofs/DilutionProofs.v and Proofs/DilutionExecProofs.v.
+
+    Stock and diluent: the documented configuration of [to_worklist] is ONE trough that holds the
+    stock in column [stock_column] and the diluent in column [diluent_column]; two different troughs
+    are possible as well.  The execution theorems (C14_exec_requested, C14_exec_volumes,
+    C14_exec_concentration, C14_exec_destination_volumes, C14_exec_destination) cover both.
 
     Conventions: [ideal] is the table of target concentrations (C columns of R values), an input of
     the model; [plan_core ideal stock vmax min_transfer] is the planner behind the argument checks of
@@ -339,16 +344,63 @@ Definition requested_from (k : nat) (ops : list op) : Q :=
                       | _ => 0%Q
                       end) ops).
 
-(** The operations of a plan request exactly v_stock from the stock labware and
-    R * sum vmax - (all planned volumes) = v_diluent - (serial volumes) <= v_diluent from the diluent.
+(** the (source, destination, volume) triples of a [transfer] call: arguments flattened column-major,
+    singletons broadcast *)
+Definition transfer_triples (sw dw : arr string) (vs : arr Q) : list triple :=
+  let n := Nat.max (length (flattenF sw)) (Nat.max (length (flattenF dw)) (length (flattenF vs))) in
+  zip (zip (broadcast (flattenF sw) n) (broadcast (flattenF dw) n)) (broadcast (flattenF vs) n).
+
+(** the same by COLUMN of the source labware (stock and diluent may be two columns of one trough):
+    [well_in_column col w]: the id [w] names a well of column [col], whatever its row letter;
+    [column_volume]: what one [transfer] call requests from the wells of column [col] of its source;
+    [requested_from_column k col ops]: what the operations request from column [col] of labware [k] *)
+Definition well_in_column (col : nat) (w : string) : bool :=
+  match id_rc w with Some rc => (snd rc =? col)%nat | None => false end.
+Definition column_volume (col : nat) (sw dw : arr string) (vs : arr Q) : Q :=
+  Qsum (map snd (filter (fun t => well_in_column col (fst (fst t))) (transfer_triples sw dw vs))).
+Definition requested_from_column (k col : nat) (ops : list op) : Q :=
+  Qsum (map (fun o => match o with
+                      | OTransfer ks sw _ dw vs _ _ _ _ => if ks =? k then column_volume col sw dw vs else 0%Q
+                      | _ => 0%Q
+                      end) ops).
+
+(** The operations of a plan request exactly v_stock from the stock column and
+    R * sum vmax - (all planned volumes) = v_diluent - (serial volumes) <= v_diluent from the diluent
+    column.  Stock and diluent are two different labware OR two different columns of one trough
+    (the documented configuration); [gs], [gd] are the geometries of the stock and the diluent labware
+    (with at least one row letter, as every trough has).
 
     The state-level counterpart (volumes actually moved, via the volume ledger of [transfer]) is
     C14_exec_volumes at the end of this file: after [to_worklist s a p C = (s', None)] on a plate that
     is empty in the used region, well (r, c) of the plate holds exactly
     [vmax c - drawn_from p c r - (v_destination if a destination is given)], the stock column lost
     exactly [v_stock p] and the diluent column exactly the second sum; C14_exec_concentration gives
-    the tracked composition.  C14_exec_example checks this on a concrete run. *)
+    the tracked composition, C14_exec_destination the wells of the destination plate.
+    C14_exec_example and C14_exec_same_trough_example check this on concrete runs. *)
 Theorem C14_exec_requested : forall ideal stock vmax mt p R a gs gd wms,
+  plan_core ideal stock vmax mt = Ok p -> rows R ideal ->
+  length vmax = length ideal -> tw_R a = R ->
+  tw_plate a <> tw_stock a -> tw_plate a <> tw_diluent a ->
+  (tw_stock a <> tw_diluent a \/ tw_stock_column a <> tw_diluent_column a) ->
+  0 < n_row_ids gs -> 0 < n_row_ids gd ->
+  length wms = length (dp_instr p) ->
+  (requested_from_column (tw_stock a) (tw_stock_column a) (ops_of a p gs gd (dp_instr p) wms)
+     == inject_Z (v_stock p))%Q /\
+  (requested_from_column (tw_diluent a) (tw_diluent_column a) (ops_of a p gs gd (dp_instr p) wms) ==
+     inject_Z (Z.of_nat R) * Qsum vmax - inject_Z (sumZ (concat (map i_vols (dp_instr p)))))%Q /\
+  (requested_from_column (tw_diluent a) (tw_diluent_column a) (ops_of a p gs gd (dp_instr p) wms) ==
+     v_diluent R p
+     - inject_Z (sumZ (concat (map i_vols (filter (fun i => negb (from_stock_col i)) (dp_instr p))))))%Q /\
+  ((0 <= mt)%Q ->
+   (requested_from_column (tw_diluent a) (tw_diluent_column a) (ops_of a p gs gd (dp_instr p) wms)
+      <= v_diluent R p)%Q).
+Proof. exact c14_exec_requested_columns. Qed.
+Print Assumptions C14_exec_requested.
+
+(** with two different LABWARE the same holds for everything requested from the stock labware resp.
+    the diluent labware, whatever the wells (for one trough this measure cannot tell stock from
+    diluent, hence the column-wise statement above) *)
+Theorem C14_exec_requested_labware : forall ideal stock vmax mt p R a gs gd wms,
   plan_core ideal stock vmax mt = Ok p -> rows R ideal ->
   length vmax = length ideal -> tw_R a = R ->
   tw_plate a <> tw_stock a -> tw_plate a <> tw_diluent a -> tw_stock a <> tw_diluent a ->
@@ -361,7 +413,7 @@ Theorem C14_exec_requested : forall ideal stock vmax mt p R a gs gd wms,
      - inject_Z (sumZ (concat (map i_vols (filter (fun i => negb (from_stock_col i)) (dp_instr p))))))%Q /\
   ((0 <= mt)%Q -> (requested_from (tw_diluent a) (ops_of a p gs gd (dp_instr p) wms) <= v_diluent R p)%Q).
 Proof. exact c14_exec_requested. Qed.
-Print Assumptions C14_exec_requested.
+Print Assumptions C14_exec_requested_labware.
 
 (* ------------------------------------------------------------------------------------------ *)
 (** * the argument checks in front of the planner *)
@@ -465,12 +517,7 @@ Proof. vm_compute. reflexivity. Qed.
 (* ------------------------------------------------------------------------------------------ *)
 (** * the volume ledger of [transfer] ("C04 for transfers") and the volumes after [to_worklist] *)
 
-(** the (source, destination, volume) triples of a [transfer] call: arguments flattened column-major,
-    singletons broadcast *)
-Definition transfer_triples (sw dw : arr string) (vs : arr Q) : list triple :=
-  let n := Nat.max (length (flattenF sw)) (Nat.max (length (flattenF dw)) (length (flattenF vs))) in
-  zip (zip (broadcast (flattenF sw) n) (broadcast (flattenF dw) n)) (broadcast (flattenF vs) n).
-(** well id [w] names the real well with flat index [i] of labware [L] *)
+(** ([transfer_triples]: see above) well id [w] names the real well with flat index [i] of labware [L] *)
 Definition is_well (L : labware) (i : nat) (w : string) : bool :=
   match lw_index L w with Some k => (k =? i)%nat | None => false end.
 (** total volume the triples take out of / put into the real well [i] of [L] *)
@@ -517,18 +564,23 @@ Proof. exact c14_transfer_ledger. Qed.
 Print Assumptions C14_transfer_ledger_partial.
 
 (** A run of [to_worklist] without refusal, on a worklist with positive max_volume (necessary, see
-    above), with the plate (not a trough), the stock trough, the diluent trough and the optional
-    destination plate pairwise different labware, and the used region of the plate empty.  [C] is
+    above), with the plate (not a trough) different from the stock labware, the diluent labware and the
+    optional destination plate, the destination plate different from all of them, and the used
+    region of the plate empty.  Stock and diluent may be the SAME trough (the documented
+    configuration: two columns of one trough) or two troughs; no hypothesis relates them.  [C] is
     arbitrary (the checks of to_worklist and the accepted transfers imply all that is needed).
-    (a) the stock column lost exactly v_stock, no other well of the stock trough changed;
+    (a) the stock column lost exactly v_stock;
     (b) the diluent column lost exactly R * sum vmax - (all planned volumes), which is at most
-        v_diluent, no other well of the diluent trough changed;
+        v_diluent;
+        no other well of the trough(s) changed: if stock and diluent are one labware ([St = D],
+        [St' = D']) both formulas describe all its wells, each column losing its own amount (and the
+        sum of both, should the two columns coincide);
     (c) plate well (r, c) holds vmax[c] minus what later columns drew from it minus v_destination if a
         destination plate is given; the mixing transfers change nothing. *)
 Theorem C14_exec_volumes : forall ideal stock vmax mt p R a C s s' P St D,
   plan_core ideal stock vmax mt = Ok p -> rows R ideal -> length vmax = length ideal -> tw_R a = R ->
   to_worklist s a p C = (s', None) -> wf_state s -> (0 < w_max (st_wl s))%Q ->
-  tw_plate a <> tw_stock a -> tw_plate a <> tw_diluent a -> tw_stock a <> tw_diluent a ->
+  tw_plate a <> tw_stock a -> tw_plate a <> tw_diluent a ->
   (forall d, tw_dest a = Some d -> d <> tw_plate a /\ d <> tw_stock a /\ d <> tw_diluent a) ->
   nth_error (st_lw s) (tw_plate a) = Some P -> nth_error (st_lw s) (tw_stock a) = Some St ->
   nth_error (st_lw s) (tw_diluent a) = Some D ->
@@ -539,12 +591,18 @@ Theorem C14_exec_volumes : forall ideal stock vmax mt p R a C s s' P St D,
     nth_error (st_lw s') (tw_diluent a) = Some D' /\
     lw_geom P' = lw_geom P /\ lw_geom St' = lw_geom St /\ lw_geom D' = lw_geom D /\
     (forall i, (vol_at St' i ==
-                vol_at St i - (if (i =? tw_stock_column a)%nat then inject_Z (v_stock p) else 0))%Q) /\
+                vol_at St i
+                - (if (i =? tw_stock_column a)%nat then inject_Z (v_stock p) else 0)
+                - (if ((tw_diluent a =? tw_stock a) && (i =? tw_diluent_column a))%nat
+                   then inject_Z (Z.of_nat R) * Qsum vmax - inject_Z (sumZ (concat (map i_vols (dp_instr p))))
+                   else 0))%Q) /\
     (forall i, (vol_at D' i ==
-                vol_at D i - (if (i =? tw_diluent_column a)%nat
-                              then inject_Z (Z.of_nat R) * Qsum vmax
-                                   - inject_Z (sumZ (concat (map i_vols (dp_instr p))))
-                              else 0))%Q) /\
+                vol_at D i
+                - (if (i =? tw_diluent_column a)%nat
+                   then inject_Z (Z.of_nat R) * Qsum vmax - inject_Z (sumZ (concat (map i_vols (dp_instr p))))
+                   else 0)
+                - (if ((tw_stock a =? tw_diluent a) && (i =? tw_stock_column a))%nat
+                   then inject_Z (v_stock p) else 0))%Q) /\
     ((0 <= mt)%Q ->
      (inject_Z (Z.of_nat R) * Qsum vmax - inject_Z (sumZ (concat (map i_vols (dp_instr p))))
       <= v_diluent R p)%Q) /\
@@ -555,6 +613,21 @@ Theorem C14_exec_volumes : forall ideal stock vmax mt p R a C s s' P St D,
           - (match tw_dest a with Some _ => tw_v_destination a | None => 0 end))%Q).
 Proof. exact c14_exec_volumes. Qed.
 Print Assumptions C14_exec_volumes.
+
+(** (d) the destination plate [d] (not a trough): every well (r, c), r < R, c < C, received exactly
+    v_destination; its geometry is unchanged *)
+Theorem C14_exec_destination_volumes : forall ideal stock vmax mt p R a C s s' d DP,
+  plan_core ideal stock vmax mt = Ok p -> rows R ideal -> tw_R a = R ->
+  to_worklist s a p C = (s', None) -> wf_state s -> (0 < w_max (st_wl s))%Q ->
+  tw_dest a = Some d -> d <> tw_plate a -> d <> tw_stock a -> d <> tw_diluent a ->
+  nth_error (st_lw s) d = Some DP -> is_trough (lw_geom DP) = false ->
+  exists DP', nth_error (st_lw s') d = Some DP' /\ lw_geom DP' = lw_geom DP /\
+    forall r c, (r < R)%nat -> (c < length ideal)%nat ->
+      lw_index DP (well_id r c) = Some (r * g_cols (lw_geom DP) + c)%nat /\
+      (vol_at DP' (r * g_cols (lw_geom DP) + c) ==
+         vol_at DP (r * g_cols (lw_geom DP) + c) + tw_v_destination a)%Q.
+Proof. exact c14_exec_destination_volumes. Qed.
+Print Assumptions C14_exec_destination_volumes.
 
 (** the hypotheses of C14_exec_volumes hold for the run of C14_exec_example (whose final volumes are
     those the theorem predicts: 200 - 20 = 180 in column 0, 200 - 40 resp. 200 - 25 in column 2,
@@ -605,12 +678,15 @@ Proof. vm_compute. reflexivity. Qed.
     concentration, is the concentration x[c][r] reported by the plan ([frac L k i] is the entry of
     the component table of [L], Spec/Mixing.v).  Follows the execution instruction by instruction:
     a column is filled from the stock or from an already finished column, filled up with diluent,
-    mixed (a well onto itself: no change), and afterwards only gives liquid away. *)
+    mixed (a well onto itself: no change), and afterwards only gives liquid away.
+    Stock and diluent may be two columns of ONE trough ([tw_stock a = tw_diluent a], [St = D]) or two
+    troughs: no hypothesis relates them (the two hypotheses on the fractions exclude that they are
+    the same well). *)
 Theorem C14_exec_concentration : forall ideal stock vmax mt p R a C s s' P St D k,
   plan_core ideal stock vmax mt = Ok p -> rows R ideal -> length vmax = length ideal -> tw_R a = R ->
   all_pos vmax ->
   to_worklist s a p C = (s', None) -> wf_state s -> st_inv s -> (0 < w_max (st_wl s))%Q ->
-  tw_plate a <> tw_stock a -> tw_plate a <> tw_diluent a -> tw_stock a <> tw_diluent a ->
+  tw_plate a <> tw_stock a -> tw_plate a <> tw_diluent a ->
   (forall d, tw_dest a = Some d -> d <> tw_plate a /\ d <> tw_stock a /\ d <> tw_diluent a) ->
   nth_error (st_lw s) (tw_plate a) = Some P -> nth_error (st_lw s) (tw_stock a) = Some St ->
   nth_error (st_lw s) (tw_diluent a) = Some D ->
@@ -644,4 +720,91 @@ Proof.
   subst s. vm_compute in HP, HSt, HD. injection HP as <-. injection HSt as <-. injection HD as <-.
   split; [vm_compute; reflexivity|]. split; [vm_compute; reflexivity|].
   vm_compute. reflexivity.
+Qed.
+
+(* ------------------------------------------------------------------------------------------ *)
+(** * the destination plate *)
+
+(** Under the hypotheses of C14_exec_concentration, with a destination plate [d] (not a trough,
+    different from the plate and the trough(s)) that is empty in the used region and
+    [0 < v_destination]: after the run EVERY well (r, c) of the destination plate holds exactly
+    [v_destination] with exactly the reported concentration x[c][r].  (The transfer of column c to
+    the destination plate is the last operation of instruction c, after the serial transfers out of
+    column c, when the column has its final composition.) *)
+Theorem C14_exec_destination : forall ideal stock vmax mt p R a C s s' P St D d DP k,
+  plan_core ideal stock vmax mt = Ok p -> rows R ideal -> length vmax = length ideal -> tw_R a = R ->
+  all_pos vmax ->
+  to_worklist s a p C = (s', None) -> wf_state s -> st_inv s -> (0 < w_max (st_wl s))%Q ->
+  tw_plate a <> tw_stock a -> tw_plate a <> tw_diluent a ->
+  tw_dest a = Some d -> d <> tw_plate a -> d <> tw_stock a -> d <> tw_diluent a ->
+  nth_error (st_lw s) (tw_plate a) = Some P -> nth_error (st_lw s) (tw_stock a) = Some St ->
+  nth_error (st_lw s) (tw_diluent a) = Some D -> nth_error (st_lw s) d = Some DP ->
+  is_trough (lw_geom P) = false -> is_trough (lw_geom DP) = false ->
+  (forall r c, (r < R)%nat -> (c < length ideal)%nat -> (vol_at P (r * g_cols (lw_geom P) + c) == 0)%Q) ->
+  (forall r c, (r < R)%nat -> (c < length ideal)%nat -> (vol_at DP (r * g_cols (lw_geom DP) + c) == 0)%Q) ->
+  (frac St k (tw_stock_column a) == 1)%Q -> (frac D k (tw_diluent_column a) == 0)%Q ->
+  (0 < tw_v_destination a)%Q ->
+  exists DP', nth_error (st_lw s') d = Some DP' /\ lw_geom DP' = lw_geom DP /\
+    forall r c, (r < R)%nat -> (c < length ideal)%nat ->
+      lw_index DP (well_id r c) = Some (r * g_cols (lw_geom DP) + c)%nat /\
+      (vol_at DP' (r * g_cols (lw_geom DP) + c) == tw_v_destination a)%Q /\
+      (frac DP' k (r * g_cols (lw_geom DP) + c) * stock == conc p c r)%Q.
+Proof. exact c14_exec_destination. Qed.
+Print Assumptions C14_exec_destination.
+
+(** the documented configuration: ONE trough (labware 1) with the stock in column 0 and the diluent in
+    column 1, an empty 2 x 4 plate (labware 0) and an empty 2 x 4 destination plate (labware 2),
+    v_destination = 50.  The hypotheses of C14_exec_volumes, C14_exec_concentration,
+    C14_exec_destination_volumes and C14_exec_destination hold; nothing is refused; the trough
+    columns lost 540 = v_stock and 955; every plate well holds 50 less than in C14_exec_example; every
+    destination well holds 50; plate and destination plate report the planned concentrations *)
+Local Open Scope Q_scope.
+Definition ex_args_same (R : nat) : twl_args :=
+  {| tw_R := R; tw_stock := 1; tw_stock_column := 0; tw_diluent := 1; tw_diluent_column := 1;
+     tw_plate := 0; tw_dest := Some 2%nat; tw_v_destination := 50; tw_mix_threshold := 1#20;
+     tw_mix_wash := SInt 2; tw_mix_repeat := 2; tw_mix_volume := 4#5;
+     tw_lc_stock := "Water"; tw_lc_diluent := "Water"; tw_lc_mix := "Water"; tw_lc_transfer := "Water" |}.
+Definition ex_trough2 : res labware :=
+  mk_trough {| t_name := "reagents"; t_vrows := PInt 8; t_cols := PInt 2; t_min := XQ 1000; t_max := XQ 30000;
+               t_init := A0 (XQ 20000); t_colnames := CList [Some "stock"; Some "water"] |}.
+Definition ex_dest : res labware :=
+  mk_labware {| a_name := "dest"; a_rows := PInt 2; a_cols := PInt 4; a_min := XQ 0; a_max := XQ 100;
+                a_init := None; a_vrows := None; a_names := [] |}.
+
+Example C14_exec_same_trough_example : forall P T DP,
+  ex_plate 2 4 300 = Ok P -> ex_trough2 = Ok T -> ex_dest = Ok DP ->
+  let s := {| st_lw := [P; T; DP]; st_wl := init_wl Evo 950 true false |} in
+  let a := ex_args_same 2 in
+  tw_stock a = tw_diluent a /\ tw_stock_column a <> tw_diluent_column a /\
+  tw_plate a <> tw_stock a /\ tw_dest a = Some 2%nat /\ 0 < tw_v_destination a /\
+  wf_state s /\ st_inv s /\ 0 < w_max (st_wl s) /\
+  is_trough (lw_geom P) = false /\ is_trough (lw_geom DP) = false /\
+  (forall r c, (r < 2)%nat -> (c < 4)%nat -> vol_at P (r * g_cols (lw_geom P) + c) == 0) /\
+  (forall r c, (r < 2)%nat -> (c < 4)%nat -> vol_at DP (r * g_cols (lw_geom DP) + c) == 0) /\
+  frac T "stock" 0 == 1 /\ frac T "stock" 1 == 0 /\
+  snd (to_worklist s a ex_plan 4) = None /\
+  map lw_vols (st_lw (fst (to_worklist s a ex_plan 4)))
+  = [[130; 150; 110; 150; 130; 150; 125; 150]; [19460; 19045]; [50; 50; 50; 50; 50; 50; 50; 50]] /\
+  map (fun L => map (fun i => Qred (frac L "stock" i * 100)) (seq 0 8))
+      (firstn 1 (st_lw (fst (to_worklist s a ex_plan 4))) ++ skipn 2 (st_lw (fst (to_worklist s a ex_plan 4))))
+  = [[100; 50; 10; 2; 80; 40; 8; 1]; [100; 50; 10; 2; 80; 40; 8; 1]].
+Proof.
+  intros P T DP HP HT HDP s a.
+  split; [reflexivity|]. split; [discriminate|]. split; [discriminate|]. split; [reflexivity|].
+  split; [reflexivity|].
+  split.
+  { repeat apply Forall_cons;
+      [exact (mk_labware_wf _ _ HP)|exact (mk_trough_wf _ _ HT)|exact (mk_labware_wf _ _ HDP)|apply Forall_nil]. }
+  split.
+  { repeat apply Forall_cons;
+      [exact (mk_labware_mix_inv _ _ HP)|exact (mk_trough_mix_inv _ _ HT)|exact (mk_labware_mix_inv _ _ HDP)
+      |apply Forall_nil]. }
+  subst s a. vm_compute in HP, HT, HDP. injection HP as <-. injection HT as <-. injection HDP as <-.
+  split; [reflexivity|]. split; [reflexivity|]. split; [reflexivity|].
+  split.
+  { intros [|[|r]] c Hr Hc; [| |lia]; destruct c as [|[|[|[|c]]]]; try lia; vm_compute; reflexivity. }
+  split.
+  { intros [|[|r]] c Hr Hc; [| |lia]; destruct c as [|[|[|[|c]]]]; try lia; vm_compute; reflexivity. }
+  split; [vm_compute; reflexivity|]. split; [vm_compute; reflexivity|].
+  split; [vm_compute; reflexivity|]. split; vm_compute; reflexivity.
 Qed.
